@@ -254,12 +254,23 @@ impl Target for PoolTarget {
 pub struct AmoTarget {
     n: u32,
     readd: bool,
+    /// every observation is a fresh solve of a wide universe and depends on
+    /// (n, readd) only, so it is computed once per pair
+    memo: std::collections::HashMap<(u32, bool), Value>,
 }
 impl AmoTarget {
     pub fn new() -> Self {
-        AmoTarget { n: 0, readd: false }
+        AmoTarget { n: 0, readd: false, memo: Default::default() }
     }
-    fn obs(&self) -> Value {
+    fn obs(&mut self) -> Value {
+        if let Some(v) = self.memo.get(&(self.n, self.readd)) {
+            return v.clone();
+        }
+        let v = self.obs_fresh();
+        self.memo.insert((self.n, self.readd), v.clone());
+        v
+    }
+    fn obs_fresh(&self) -> Value {
         if self.n == 0 {
             return json!({"n": 0, "helpers": 0, "cls": []});
         }
